@@ -174,7 +174,7 @@ class IntermediateCodeGen(AbstractCodeGen):
             if moduleCompliance:
                 self._complianceOids.append(outDict['oid'])
 
-    def genNumericOid(self, oid):
+    def genNumericOid(self, oid, seen=()):
         numericOid = ()
 
         for part in oid:
@@ -190,14 +190,24 @@ class IntermediateCodeGen(AbstractCodeGen):
 
                 if parent not in self.symbolTable[module]:
                     raise error.PySmiSemanticError('no symbol "%s" in module "%s"' % (parent, module))
-                numericOid += self.genNumericOid(self.symbolTable[module][parent]['oid'])
+
+                if 'oid' not in self.symbolTable[module][parent]:
+                    raise error.PySmiSemanticError('symbol "%s" in module "%s" has no OID' % (parent, module))
+
+                if part in seen:
+                    raise error.PySmiSemanticError('OID of symbol "%s" in module "%s" is defined through itself' % (parent, module))
+
+                numericOid += self.genNumericOid(self.symbolTable[module][parent]['oid'], seen + (part,))
 
             else:
                 numericOid += (part,)
 
         return numericOid
 
-    def getBaseType(self, symName, module):
+    def getBaseType(self, symName, module, seen=()):
+        if (symName, module) in seen:
+            raise error.PySmiSemanticError('type "%s" in module "%s" is defined through itself' % (symName, module))
+
         if module not in self.symbolTable:
             raise error.PySmiSemanticError('no module "%s" in symbolTable' % module)
 
@@ -212,7 +222,7 @@ class IntermediateCodeGen(AbstractCodeGen):
             return symType, symSubtype
 
         else:
-            baseSymType, baseSymSubtype = self.getBaseType(*symType)
+            baseSymType, baseSymSubtype = self.getBaseType(*symType, seen=seen + ((symName, module),))
             if isinstance(baseSymSubtype, list):
                 if isinstance(symSubtype, list):
                     symSubtype = symSubtype + baseSymSubtype
